@@ -584,3 +584,126 @@ Example cr_unsafe_witness :
   let segs := [(lit "a", CR); ([], LF)] in
   splitlines (assemble segs) = [lit "a"] /\ readlines (assemble segs) = [lit "a" ++ nl].
 Proof. split; reflexivity. Qed.
+
+(* ================================================================================================ *)
+(* 6. header_only                                                                                   *)
+(* ================================================================================================ *)
+(* the header fields that no parser recomputes *)
+Definition meta_texts (m : meta) :=
+  (file_name m, title m, description m, data_type m, modification_type m, relates_to m, related_files m,
+   publication_date m, modification_date m, alt_names m).
+
+(* h is the header part of i.  For a matching instance the full parse replaces num_edges by the number of
+   stored edges while the header-only parse keeps the declared number, so num_edges is left out there (the two
+   agree exactly when the header declares the right number, as every written file does). *)
+Definition header_agrees (h i : inst) : Prop :=
+  match h, i with
+  | IWmd a, IWmd b => w_meta a = w_meta b /\ w_nodes a = [] /\ w_weights a = []
+  | _, _ => h = header_of i
+  end.
+
+Lemma ord_header_only ac m0 ls i : ord_parse ac false m0 ls = Ok i ->
+  exists h, ord_parse ac true m0 ls = Ok h /\ o_orders h = [] /\ o_mult h = [] /\
+            meta_texts (o_meta h) = meta_texts (o_meta i) /\
+            (ac = false -> h = mkOinst (o_meta i) (o_num_unique i) [] []).
+Proof.
+  unfold ord_parse. set (m1 := if ac then _ else _).
+  destruct (OrdIO.header_loop ac (m1, 0%N) ls) as [[[m nu] rest]|e]; simpl; [|discriminate].
+  destruct (OrdIO.ballot_loop ac ([], []) rest) as [[ords mu]|e]; simpl; [|discriminate].
+  intros H. exists (mkOinst m nu [] []). repeat split.
+  - destruct ac; injection H as <-; reflexivity.
+  - intros ->. injection H as <-. reflexivity.
+Qed.
+
+Lemma cat_header_line_ballots ac resv i line i' : header_line ac resv i line = Ok i' ->
+  c_prefs i' = c_prefs i /\ c_mult i' = c_mult i.
+Proof.
+  unfold header_line.
+  destruct (startswith (lit "# NUMBER UNIQUE PREFERENCES") line).
+  - destruct (py_int (drop 28 line)) as [n|e]; cbn [rbind rmap]; [|discriminate].
+    destruct (startswith (lit "# NUMBER CATEGORIES") line).
+    + destruct (py_int (drop 20 line)); cbn [rbind rmap]; [|discriminate]. now intros [= <-].
+    + destruct (startswith (lit "# CATEGORY NAME") line).
+      * destruct (match_name cat_name_prefix line) as [[cat nm]|]; [|now intros [= <-]].
+        destruct (corrected_name _ _ _ _); cbn [rbind rmap]; [|discriminate]. now intros [= <-].
+      * destruct (parse_metadata _ _ _); cbn [rbind rmap]; [|discriminate]. now intros [= <-].
+  - cbn [rbind rmap]. destruct (startswith (lit "# NUMBER CATEGORIES") line).
+    + destruct (py_int (drop 20 line)); cbn [rbind rmap]; [|discriminate]. now intros [= <-].
+    + destruct (startswith (lit "# CATEGORY NAME") line).
+      * destruct (match_name cat_name_prefix line) as [[cat nm]|]; [|now intros [= <-]].
+        destruct (corrected_name _ _ _ _); cbn [rbind rmap]; [|discriminate]. now intros [= <-].
+      * destruct (parse_metadata _ _ _); cbn [rbind rmap]; [|discriminate]. now intros [= <-].
+Qed.
+
+Lemma cat_header_loop_ballots ac resv ls : forall i i1 rest,
+  CatIO.header_loop ac resv i ls = Ok (i1, rest) -> c_prefs i1 = c_prefs i /\ c_mult i1 = c_mult i.
+Proof.
+  induction ls as [|l r IH]; intros i i1 rest; cbn [CatIO.header_loop]; [now intros [= <- _]|].
+  destruct (startswith hash_prefix (strip l)); [|now intros [= <- _]].
+  destruct (header_line ac resv i (strip l)) as [i'|e] eqn:E; simpl; [|discriminate].
+  apply cat_header_line_ballots in E as [E1 E2].
+  destruct r as [|x y]; [intros [= <- _]; now split|].
+  intros H. apply IH in H as [H1 H2]. split; congruence.
+Qed.
+
+Lemma cat_ballot_loop_header ac ls : forall i i2,
+  CatIO.ballot_loop ac i ls = Ok i2 -> set_c_ballots i2 [] [] = set_c_ballots i [] [].
+Proof.
+  induction ls as [|l r IH]; intros i i2; cbn [CatIO.ballot_loop]; [now intros [= <-]|].
+  destruct (ballot_of_line l) as [[k b]|e]; simpl; [|discriminate].
+  intros H. apply IH in H. rewrite H. unfold CatIO.add_ballot.
+  destruct (if ac then _ else _); reflexivity.
+Qed.
+
+Lemma cat_header_only ac m0 ls i : cat_parse ac false m0 ls = Ok i ->
+  exists h, cat_parse ac true m0 ls = Ok h /\ c_prefs h = [] /\ c_mult h = [] /\
+            meta_texts (c_meta h) = meta_texts (c_meta i) /\
+            (ac = false -> h = set_c_ballots i [] []).
+Proof.
+  unfold cat_parse. destruct (teqb (data_type m0) (lit "cat")); [|discriminate].
+  set (m1 := if ac then _ else _). unfold cat_parse_body. set (resv := if ac then _ else _).
+  destruct (CatIO.header_loop ac resv (cinst0 m1) ls) as [[i1 rest]|e] eqn:EH; simpl; [|discriminate].
+  apply cat_header_loop_ballots in EH as [P M]. cbn [cinst0 c_prefs c_mult] in P, M.
+  destruct (CatIO.ballot_loop ac i1 rest) as [i2|e] eqn:EB; simpl; [|discriminate].
+  apply cat_ballot_loop_header in EB.
+  assert (E1 : set_c_ballots i1 [] [] = i1) by (destruct i1; simpl in *; now subst).
+  intros H. exists i1. repeat split; try assumption.
+  - injection H as <-. apply (f_equal c_meta) in EB. cbn [set_c_ballots c_meta] in EB.
+    destruct ac; [|now rewrite EB]. unfold recompute. cbn [set_c_num_unique set_c_meta c_meta]. now rewrite EB.
+  - intros ->. injection H as <-. now rewrite EB.
+Qed.
+
+Lemma wmd_header_only W read_w ac m0 ls (i : winst W) : wmd_parse W read_w ac false m0 ls = Ok i ->
+  exists ne, wmd_parse W read_w ac true m0 ls = Ok (mkW (w_meta i) ne [] []).
+Proof.
+  unfold wmd_parse. destruct (teqb (data_type m0) (lit "wmd")); [|discriminate].
+  set (m1 := if ac then _ else _).
+  destruct (wmd_header ac m1 0%N ls) as [[[m ne] rest]|e]; simpl; [|discriminate].
+  destruct (parse_edges W read_w rest ([], [])) as [g|e]; simpl; [|discriminate].
+  intros [= <-]. now exists ne.
+Qed.
+
+Theorem header_only_proof c dt ac ls i :
+  parse_lines c dt (mkFlags ac false) ls = Ok i ->
+  exists h, parse_lines c dt (mkFlags ac true) ls = Ok h /\
+            inst_empty h = true /\
+            meta_texts (inst_meta h) = meta_texts (inst_meta i) /\
+            (ac = false -> header_agrees h i).
+Proof.
+  unfold parse_lines. destruct (type_validator c dt); [|discriminate]. unfold class_parse. cbn [autocorrect header_only].
+  destruct c.
+  - destruct (ord_parse ac false (meta0 dt) ls) as [o|e] eqn:E; simpl; [|discriminate]. intros [= <-].
+    apply ord_header_only in E as [h [E [H1 [H2 [H3 H4]]]]]. rewrite E. simpl. exists (IOrd h).
+    repeat split; [simpl; now rewrite H1, H2|exact H3|]. intros A. simpl. now rewrite (H4 A).
+  - destruct (cat_parse ac false (meta0 dt) ls) as [o|e] eqn:E; simpl; [|discriminate]. intros [= <-].
+    apply cat_header_only in E as [h [E [H1 [H2 [H3 H4]]]]]. rewrite E. simpl. exists (ICat h).
+    repeat split; [simpl; now rewrite H1, H2|exact H3|]. intros A. simpl. now rewrite (H4 A).
+  - unfold wmd_parse_tok. destruct (wmd_parse text tok_read ac false (meta0 dt) ls) as [o|e] eqn:E; simpl; [|discriminate].
+    intros [= <-]. apply wmd_header_only in E as [ne E]. rewrite E. simpl.
+    exists (IWmd (mkW (w_meta o) ne [] [])). repeat split.
+Qed.
+
+(* the header-only parse never looks at the lines behind the header: it succeeds whatever follows *)
+Lemma ord_header_only_ok ac m0 ls st rest : OrdIO.header_loop ac ((if ac then set_reserved m0 (reserved_of alt_name_prefix ls) else m0), 0%N) ls = Ok (st, rest) ->
+  ord_parse ac true m0 ls = Ok (mkOinst (fst st) (snd st) [] []).
+Proof. unfold ord_parse. intros ->. destruct st. reflexivity. Qed.
